@@ -159,3 +159,78 @@ def contains_nan(c) -> bool:
             return True
         return any(contains_nan(x) for x in c)
     return False
+
+
+# ------------------------------------------------------------------------------------------------ histories on one instance
+# (added for the multi-step probes of C01/C02/C04: configuration changes between operations on ONE cstruct instance)
+
+class Session:
+    """One cstruct instance that lives through a history: several `load` calls (each with its own compiled/align flags),
+    changes of `cs.endian` / `cs.pointer` in between, parses and dumps.  Every step is recorded so that a violation can be
+    replayed as a script (`script()`)."""
+
+    def __init__(self, *, endian="<", pointer="uint64", preamble=True):
+        m = dc()
+        self.endian, self.pointer = endian, pointer
+        self.cs = m.cstruct(endian=endian, pointer=pointer)
+        self.steps: list[str] = [f"from dissect.cstruct import cstruct; cs = cstruct(endian={endian!r}, pointer={pointer!r})"]
+        if preamble:
+            self.load_text(defs.PREAMBLE + "#define K2 2\n#define K0 0\n")
+
+    def note(self, step: str):
+        self.steps.append(step)
+
+    def load_text(self, text, *, compiled=False, align=False):
+        self.steps.append(f"cs.load({text!r}, compiled={compiled}, align={align})")
+        self.cs.load(text, compiled=compiled, align=align)
+
+    def load(self, tree, name="T", *, compiled=False, align=False, text=None):
+        """load one generated definition under `name`; -> a Loaded view bound to this (shared) instance"""
+        text = text if text is not None else defs.render_struct(name, tree)
+        self.load_text(text, compiled=compiled, align=align)
+        return self.view(tree, name, text=text, compiled=compiled, align=align)
+
+    def view(self, tree, name, *, text="", compiled=False, align=False):
+        L = object.__new__(Loaded)
+        L.tree, L.endian, L.align, L.compiled, L.pointer = tree, self.endian, align, compiled, self.pointer
+        L.cs, L.text, L.T = self.cs, text, getattr(self.cs, name)
+        L.session = self
+        return L
+
+    def set_endian(self, endian):
+        self.steps.append(f"cs.endian = {endian!r}")
+        self.cs.endian = endian
+        self.endian = endian
+
+    def set_pointer(self, pointer):
+        self.steps.append(f"cs.pointer = cs.{pointer}")
+        self.cs.pointer = getattr(self.cs, pointer)
+        self.pointer = pointer
+
+    def script(self, extra=()) -> str:
+        return "\n".join([*self.steps, *extra])
+
+
+def retarget(L, *, endian=None, pointer=None):
+    """a copy of a Loaded view whose recorded configuration follows the instance's current one (for cfg_sexp / refimpl.Cfg)"""
+    M = object.__new__(Loaded)
+    M.__dict__.update(L.__dict__)
+    if endian is not None:
+        M.endian = endian
+    if pointer is not None:
+        M.pointer = pointer
+    return M
+
+
+def aggregates(tree, T, path="T"):
+    """(path, subtree, real class) for every struct/union node of a generated tree (the top included), found by walking
+    the tree and the real class side by side (arrays and pointers are peeled through `.type`)"""
+    out = []
+    k = tree[0]
+    if k in ("arr", "ptr"):
+        return aggregates(tree[1], T.type, path + ("[]" if k == "arr" else "*"))
+    if k in ("struct", "union"):
+        out.append((path, tree, T))
+        for f, rf in zip(tree[1], T.__fields__):
+            out += aggregates(f["ty"], rf.type, f"{path}.{rf._name}")
+    return out
